@@ -124,6 +124,11 @@ def to_seq(I: Interp, it, node=None) -> Seq:
         ty = T.strip_opt(it.ty)
         if it.ty.k == "opt":
             st.oblige("safety", "iterate_none", z3.Not(smt.is_none(it.t)), getattr(node, "lineno", 0))
+        if ty.k == "any":
+            st.log.append("iteration over a value of undeclared type: taken to be a list (other iterables are not modelled)")
+            I.safety("TypeError", "iterate_nonlist", smt.is_ref(it.t), getattr(node, "lineno", 0))
+            it = SV(it.t, T.LIST(T.ANY))
+            ty = it.ty
         if ty.k in ("list", "tuple"):
             n = I.list_len(it)
             conc = None
